@@ -538,6 +538,60 @@ def key_file_rule(ctx, rid, impl, method, name_param="key_name", dir_attr="keys_
             expected="every read of the key uses the same path", found=f"{len(paths)} different paths: {[repr(p)[:80] for p in paths]}")
 
 
+def _kw_with_star(keywords):
+    kw = {k.arg: k.value for k in keywords if k.arg}
+    stars = [k.value for k in keywords if k.arg is None]
+    if stars:
+        kw["**"] = ast.Tuple(elts=stars, ctx=ast.Load())
+    return kw
+
+
+def _literal_kwargs(repo, m, f, e, _depth=0):
+    """{keyword: AST} for an expression used as **e in a call: a dict literal, dict(k=v, ...), a name bound once to one (local or
+    module level), the literal returned by a parameterless function of the module, or such a mapping indexed by a constant key."""
+    if _depth > 4:
+        return None
+    if isinstance(e, ast.Dict):
+        if all(isinstance(k, ast.Constant) and isinstance(k.value, str) for k in e.keys):
+            return {k.value: v for k, v in zip(e.keys, e.values)}
+        return None
+    if isinstance(e, ast.Call) and isinstance(e.func, ast.Name) and e.func.id == "dict" and not e.args and all(k.arg for k in e.keywords):
+        return {k.arg: k.value for k in e.keywords}
+    table = _literal_table(repo, m, f, e, _depth)
+    return _literal_kwargs(repo, m, f, table, _depth + 1) if table is not None and table is not e else None
+
+
+def _literal_table(repo, m, f, e, _depth=0):
+    """The literal an expression denotes: name -> its single binding, f() -> the literal f returns, table[const] -> that entry."""
+    from sa.index import walk_no_nested
+    if isinstance(e, (ast.Dict, ast.Tuple, ast.List)):
+        return e
+    if isinstance(e, ast.Name):
+        binds = [n_.value for n_ in walk_no_nested(f.node) if isinstance(n_, ast.Assign) and len(n_.targets) == 1
+                 and isinstance(n_.targets[0], ast.Name) and n_.targets[0].id == e.id]
+        if len(binds) == 1:
+            return _literal_table(repo, m, f, binds[0], _depth + 1)
+        if not binds and e.id in m.assigns:
+            return _literal_table(repo, m, f, m.assigns[e.id], _depth + 1)
+        return None
+    if isinstance(e, ast.Call) and isinstance(e.func, ast.Name) and not e.args and not e.keywords and e.func.id in m.functions:
+        g = m.functions[e.func.id]
+        rets = [n_ for n_ in walk_no_nested(g.node) if isinstance(n_, ast.Return)]
+        if len(rets) == 1 and rets[0].value is not None:
+            return _literal_table(repo, m, g, rets[0].value, _depth + 1)
+        return None
+    if isinstance(e, ast.Subscript) and isinstance(e.slice, ast.Constant):
+        t = _literal_table(repo, m, f, e.value, _depth + 1)
+        if isinstance(t, ast.Dict):
+            for k, v in zip(t.keys, t.values):
+                if isinstance(k, ast.Constant) and k.value == e.slice.value:
+                    return v
+        if isinstance(t, (ast.Tuple, ast.List)) and isinstance(e.slice.value, int) and -len(t.elts) <= e.slice.value < len(t.elts):
+            return t.elts[e.slice.value]
+        return None
+    return None
+
+
 class _TypeOfMember(ast.NodeTransformer):
     """type(<Enum class>.<member>) is the Enum class."""
 
@@ -570,12 +624,38 @@ def cli_registrations(repo, m):
             return self.mapping.get(node.id, node) if isinstance(node.ctx, ast.Load) else node
 
     def helper_calls(f):
+        """Calls of the helper f in the module; a call inside `for <names> in <literal table>` counts once per row, with the loop
+        names in its arguments replaced by the row's items."""
+        import copy as _copy
         calls = []
         for g in m.functions.values():
+            if g is f:
+                continue
+            parents = {}
+            for p_ in ast.walk(g.node):
+                for ch_ in ast.iter_child_nodes(p_):
+                    parents[ch_] = p_
             for n_ in walk_no_nested(g.node):
                 if isinstance(n_, ast.Call) and ((isinstance(n_.func, ast.Name) and n_.func.id == f.name) or (
-                        isinstance(n_.func, ast.Attribute) and n_.func.attr == f.name)) and g is not f:
-                    calls.append(n_)
+                        isinstance(n_.func, ast.Attribute) and n_.func.attr == f.name)):
+                    combos = [{}]
+                    q_ = parents.get(n_)
+                    while q_ is not None and q_ is not g.node:
+                        if isinstance(q_, ast.For):
+                            it = _literal_table(repo, m, g, q_.iter)
+                            rows = []
+                            if isinstance(it, (ast.Tuple, ast.List)):
+                                for row in it.elts:
+                                    if isinstance(q_.target, ast.Name):
+                                        rows.append({q_.target.id: row})
+                                    elif isinstance(q_.target, (ast.Tuple, ast.List)) and isinstance(row, (ast.Tuple, ast.List)) \
+                                            and len(row.elts) == len(q_.target.elts) and all(isinstance(t_, ast.Name) for t_ in q_.target.elts):
+                                        rows.append({t_.id: v_ for t_, v_ in zip(q_.target.elts, row.elts)})
+                            if rows:
+                                combos = [{**c0, **r_} for c0 in combos for r_ in rows]
+                        q_ = parents.get(q_)
+                    for mp_ in combos:
+                        calls.append(Subst(mp_).visit(_copy.deepcopy(n_)) if mp_ else n_)
         return calls
 
     for f in m.functions.values():
@@ -636,10 +716,10 @@ def cli_registrations(repo, m):
             if not isinstance(c, ast.Call):
                 continue
             if isinstance(c.func, ast.Attribute) and c.func.attr == "add_argument":
-                own.extend(variants(c, list(c.args), {k.arg: k.value for k in c.keywords if k.arg}, c.func.value))
+                own.extend(variants(c, list(c.args), _kw_with_star(c.keywords), c.func.value))
             elif isinstance(c.func, ast.Name) and c.func.id in partials:
                 ppos, pkw, precv = partials[c.func.id]
-                own.extend(variants(c, ppos + list(c.args), {**pkw, **{k.arg: k.value for k in c.keywords if k.arg}}, precv))
+                own.extend(variants(c, ppos + list(c.args), {**pkw, **_kw_with_star(c.keywords)}, precv))
         if not own:
             continue
         params = f.params()
@@ -676,8 +756,20 @@ def cli_registrations(repo, m):
         else:
             for c, pos, kw, recv in own:
                 out.append((f, c, pos, kw, recv))
-    # options registered in a loop over a literal table of flags: one registration per row when the flag is the loop variable
-    return out
+    # keyword arguments handed over as **<table entry>: written out when the entry is a dict literal that can be located
+    done = []
+    for f, c, pos, kw, recv in out:
+        if "**" in kw:
+            kw = dict(kw)
+            stars = kw.pop("**").elts
+            for e_ in stars:
+                d_ = _literal_kwargs(repo, m, f, e_)
+                if d_ is None:
+                    raise AnalysisError(f"{m.name}:{f.qualname}: keyword arguments of add_argument given as **{ast.unparse(e_)[:60]} cannot be "
+                                        f"located statically (line {c.lineno})")
+                kw = {**d_, **kw}
+        done.append((f, c, pos, kw, recv))
+    return done
 
 
 def cli_converters(ctx, rid, modname, floor):
